@@ -5,7 +5,9 @@ bool g_last_trace_valid = false;
 
 // ------------------------------------------------------------------------------------------------
 // ownership monitor (C14)
-std::string monitor_events(const std::vector<wapi::Event> &ev, int T, const std::vector<uint32_t> &blocks_per_fill, bool recorder, std::map<std::string, uint64_t> *counts, bool partial)
+// sizes_unknown: a read of the input failed in the middle of the run, so how many blocks each chunk holds (and how
+// many chunks there are) is not known in advance; the ownership rules, "own buffer only" and "in order" still apply
+std::string monitor_events(const std::vector<wapi::Event> &ev, int T, const std::vector<uint32_t> &blocks_per_fill, bool recorder, std::map<std::string, uint64_t> *counts, bool partial, bool sizes_unknown)
 {
   enum
   {
@@ -70,7 +72,7 @@ std::string monitor_events(const std::vector<wapi::Event> &ev, int T, const std:
           return err(i, "buffer " + std::to_string(b) + " handed back by thread " + std::to_string(e.tid) + ", not by its worker");
         if (owner[b] != OWN_WORKER)
           return err(i, "buffer " + std::to_string(b) + " handed back although the worker does not own it");
-        if (taken[b] != expect[b])
+        if (!sizes_unknown && taken[b] != expect[b])
           return err(i, "buffer " + std::to_string(b) + " handed back after " + std::to_string(taken[b]) + " of " + std::to_string(expect[b]) + " blocks");
         owner[b] = OWN_IO;
         handbacks++;
@@ -96,7 +98,7 @@ std::string monitor_events(const std::vector<wapi::Event> &ev, int T, const std:
           return err(i, "worker " + std::to_string(w) + " was given a block of buffer " + std::to_string(b));
         if (blk != taken[b])
           return err(i, "buffer " + std::to_string(b) + ": block " + std::to_string(blk) + " taken, expected block " + std::to_string(taken[b]) + " (each block once, in order)");
-        if (taken[b] >= expect[b])
+        if (!sizes_unknown && taken[b] >= expect[b])
           return err(i, "buffer " + std::to_string(b) + ": more blocks taken than the chunk holds");
         taken[b]++;
         last_take[w] = e.obj;
@@ -163,14 +165,22 @@ std::string monitor_events(const std::vector<wapi::Event> &ev, int T, const std:
       {
         if ((int)(fills % (size_t)T) != b)
           return err(i, "chunk " + std::to_string(fills) + " was loaded into buffer " + std::to_string(b) + ", owner position is " + std::to_string(fills % T));
-        if (fills >= blocks_per_fill.size())
+        if (!sizes_unknown && fills >= blocks_per_fill.size())
           return err(i, "more chunks loaded than the input holds");
-        expect[b] = blocks_per_fill[fills];
+        expect[b] = fills < blocks_per_fill.size() ? blocks_per_fill[fills] : 0;
         has_data[b] = 1;
         fill_no[b] = (int)fills;
         fills++;
       }
       break;
+    }
+    case EV_FOREIGN_WRITE:
+    {
+      // reported by the harness (wapi.cpp): a copy of the buffer array taken when the fill began differs, at the first
+      // yield point after the read, outside the data area of the buffer being filled. Nothing else ran in between
+      // (deterministic scheduler), so the I/O thread's read wrote there.
+      uint64_t off = bstride ? e.obj - bbase : 0, victim = bstride ? off / bstride : 0, fb = bstride ? (uint64_t)e.b / bstride : 0;
+      return err(i, "while filling buffer " + std::to_string(fb) + " the I/O thread's read changed " + std::to_string(e.a) + " bytes of the buffer array outside that buffer's data area, first at offset " + std::to_string(off % (bstride ? bstride : 1)) + " of buffer " + std::to_string(victim) + (victim == fb ? " (its control fields)" : owner.size() > victim && owner[victim] == OWN_WORKER ? ", which a worker owns at that moment" : ", which it does not hold for filling"));
     }
     case EV_WORKER_ENTER:
       if (e.tid != (int)e.a + 1)
@@ -182,7 +192,7 @@ std::string monitor_events(const std::vector<wapi::Event> &ev, int T, const std:
       break;
     }
   }
-  if (partial)
+  if (partial || sizes_unknown)
     return ""; // an incomplete run (it did not terminate: C04's verdict): only the safety rules above apply
   if (fills != blocks_per_fill.size())
     return "only " + std::to_string(fills) + " of " + std::to_string(blocks_per_fill.size()) + " chunks were loaded";
@@ -317,6 +327,15 @@ Verdict run_sched_case(const Case &c, SchedProp which)
     pc.in_fail_at = (long)c.geti("rderr"); // an unreadable stretch of the input: the operation may fail, it must still return
   if (which == SP_C04 && c.has("wrerr"))
     pc.out_fail_at = (long)c.geti("wrerr"); // the output device fills up: the operation may fail, it must still return
+  bool rd1 = which == SP_C14 && c.has("rderr1") && (op == "enc" || op == "rec");
+  if (rd1)
+  {
+    // ONE read of the input fails (EINTR / transient EIO) in the middle of the run, after part of a chunk was
+    // delivered; later reads succeed. What the pipeline makes of the data is not C14's subject - who touches which
+    // buffer when is.
+    pc.in_fail_at = (long)c.geti("rderr1");
+    pc.in_fail_once = true;
+  }
   std::string pre = c.get("pre", ""); // an earlier operation in the same process (all three properties)
   int preT = (int)c.geti("preT");
   auto job = [&]() -> bytes {
@@ -412,6 +431,10 @@ Verdict run_sched_case(const Case &c, SchedProp which)
     v.classes.push_back("input_read_error_injected");
   if (pc.out_fail_at >= 0)
     v.classes.push_back("output_write_error_injected");
+  if (pc.in_noseek)
+    v.classes.push_back("input_is_a_pipe");
+  if (pc.fsize_hint == 0)
+    v.classes.push_back("size_passed_as_0");
   {
     // distinct by (config, resolved decision trace)
     std::string t;
@@ -428,6 +451,8 @@ Verdict run_sched_case(const Case &c, SchedProp which)
     id.set("pre", pre);
     id.seti("rderr", pc.in_fail_at);
     id.seti("wrerr", pc.out_fail_at);
+    id.seti("pipe", pc.in_noseek ? 1 : 0);
+    id.seti("rd1", rd1 ? pc.in_fail_at : -1);
     v.distinct = fnv64(id.text());
   }
   if (which == SP_C04)
@@ -542,9 +567,15 @@ Verdict run_sched_case(const Case &c, SchedProp which)
       v.nontrivial = false;
       if ((r.status == CH_DEADLOCK || r.status == CH_STEPLIMIT) && op != "ver" && !o.events.empty())
       {
-        std::string m = monitor_events(o.events, e.T, bpf, is_rec, nullptr, true);
+        std::string m = monitor_events(o.events, e.T, bpf, is_rec, nullptr, true, rd1);
         if (!m.empty())
-          return bad("hand-over protocol violated (in a run that also failed to terminate): " + m);
+          {
+          std::string why = r.describe();
+          size_t hp = why.find("stopped by the harness");
+          if (hp != std::string::npos)
+            why = why.substr(hp);
+          return bad("hand-over protocol violated (in a run that did not run to completion: " + why + "): " + m);
+        }
       }
       return v;
     }
@@ -610,7 +641,9 @@ Verdict run_sched_case(const Case &c, SchedProp which)
     v.nontrivial = false;
     return v; // verification does not run the chunk pipeline
   }
-  std::string m = monitor_events(o.events, e.T, bpf, is_rec, nullptr);
+  std::string m = monitor_events(o.events, e.T, bpf, is_rec, nullptr, false, rd1);
+  if (rd1)
+    v.classes.push_back("one_read_of_the_input_failed");
   if (o.events.empty())
   {
     Verdict f = Verdict::fail("no hook events recorded: instrumentation missing");
@@ -700,6 +733,30 @@ Case gen_sched_case(SchedProp which)
     c.seti("wrerr", at < 0 ? 0 : at);
     c.seti("outbuf", g::oneof<long>({0, 1, 1, 2})); // unbuffered / small stdio buffers let fwrite see the error
   }
+  if (which == SP_C14 && wapi::has_scheduler() && (op == "enc" || op == "rec") && g::coin(6))
+  {
+    // one read of the input fails in the middle of the run. Half of these cases use the largest chunk the build
+    // supports, as the production build does (chunk size == capacity of a buffer): whatever is read beyond a chunk
+    // then lands outside the buffer
+    if (g::coin(50))
+    {
+      chunk = wapi::chunk_capacity();
+      bpc = chunk / 16;
+      T = (int)g::range(2, 5);
+      q = g::range(1, 2 * T + 2);
+      len = (uint64_t)q * chunk + (uint64_t)g::range(0, chunk);
+      c.seti("plen", (long long)len);
+      c.seti("T", T);
+      c.seti("chunk", chunk);
+      c.set("sched", gen_sched(T, (size_t)(len / 16 + 1)).text());
+    }
+    if (len > 0)
+      c.seti("rderr1", g::coin(50) ? g::range(0, (long)len) : (long)(chunk * g::range(0, q + 1) + g::oneof<long>({1, 8, 15, 16, 17, chunk / 2, chunk - 1})) % (long)len);
+  }
+  if (which == SP_C04 && wapi::has_scheduler() && (op == "enc" || op == "dec" || op == "ver") && g::coin(4))
+    c.seti("pipe_in", 1); // the input stream cannot seek (the file comes through a pipe): the operation may fail, it has to return
+  if ((op == "enc" || op == "dec" || op == "ver") && g::coin(10))
+    c.seti("fsz0", 1);
   if (wapi::has_scheduler() && g::coin(which == SP_C04 ? 20 : 12))
   {
     c.set("pre", g::oneof<std::string>({"rejdec", "rejver", "garbage", "enc", "dec"}));
